@@ -1,6 +1,6 @@
 """C14: fault containment and clean shutdown.
 
-crash points x fault kinds x transports x schedules on the real World.run()/shutdown():
+crash points x fault kinds x transports x schedules (x debug mode / cache off) on the real World.run()/shutdown():
   remote transport (shipped RemoteProxy + Channel over fake streams): connection closed / reset
   with a request outstanding, simulator dying while idle (after answering), remote handler raising;
   in-process transports (AsyncProxy, shipped LocalProxy): simulator raising.
@@ -50,6 +50,11 @@ def cases(tier, seed):
                                 plan = {"sid": sid, "req": req, "k": k, "kind": kind}
                                 out.append({"id": [si, sid, req, k, kind, transport, lazy, pi], "scn": S.normalize(scn), "seed": rng.randrange(10**6),
                                             "behaviour": {"kind": "faultplan", "plan": plan, "p_event": 0.8, "ev_next": [None, 1]}, "policy": pol})
+                                if pi == 0:
+                                    # the same failure with the World's other options: debug mode (mosaik wraps step() there), cache off
+                                    opt = dict(scn, debug=True) if (k + si) % 2 else dict(scn, debug=True, cache=False)
+                                    out.append({"id": [si, sid, req, k, kind, transport, lazy, "debug"], "scn": S.normalize(opt), "seed": rng.randrange(10**6),
+                                                "behaviour": {"kind": "faultplan", "plan": plan, "p_event": 0.8, "ev_next": [None, 1]}, "policy": pol})
     return out
 
 
